@@ -168,6 +168,22 @@ def apps(v, out=None):
     return out
 
 
+def subst(v, old, new):
+    """replace every occurrence of the abstract value `old` in `v` by `new` (used to apply an equality a path established)"""
+    if v == old:
+        return new
+    k = v[0]
+    if k == 'adt':
+        return (v[0], v[1], v[2], v[3], tuple(subst(x, old, new) for x in v[4]))
+    if k == 'tuple':
+        return ('tuple', tuple(subst(x, old, new) for x in v[1]))
+    if k == 'app':
+        return ('app', v[1], tuple(subst(x, old, new) if isinstance(x, tuple) else x for x in v[2]))
+    if k == 'proj':
+        return ('proj', subst(v[1], old, new), v[2])
+    return v
+
+
 def has_subterm(v, sub):
     """structural containment of the abstract value `sub` in `v` (never compare formatted strings for this)"""
     if v == sub:
